@@ -801,14 +801,14 @@ pub fn run(ctx: &Ctx, rep: &Report) {
     run_enum(ctx, rep, "connect-panic", &panics, true, &check_connect_panic);
     let early: Vec<EarlyCancel> = [0u16, 0, 1, 5, 20, 50, 100, 200, 400, 800, 1500, 3000].into_iter().map(|delay_us| EarlyCancel { delay_us }).collect();
     run_enum(ctx, rep, "cancel-early", &early, false, &check_cancel_early);
-    run_prop(ctx, rep, "cancel-early", ctx.tier.pick(60, 1_500), &|| (0u16..2000).prop_map(|delay_us| EarlyCancel { delay_us }).boxed(), &check_cancel_early);
+    run_prop(ctx, rep, "cancel-early", ctx.tier.pick(60, 5_000), &|| (0u16..2000).prop_map(|delay_us| EarlyCancel { delay_us }).boxed(), &check_cancel_early);
     // few check threads: parked inline handlers occupy runtime workers (see `case`)
-    run_prop_threads(ctx, rep, "random", ctx.tier.pick(300, 6_000), ctx.threads.min(3), &|| case(), &check);
+    run_prop_threads(ctx, rep, "random", ctx.tier.pick(300, 15_000), ctx.threads.min(3), &|| case(), &check);
     run_prop(
         ctx,
         rep,
         "accept-loop",
-        ctx.tier.pick(60, 1_200),
+        ctx.tier.pick(60, 3_000),
         &|| {
             (prop::collection::vec(any::<bool>(), 0..4), prop::collection::vec(any::<bool>(), 1..6), 20u16..150)
                 .prop_map(|(bad_handshakes, good, drain_ms)| LoopCase { bad_handshakes, good, drain_ms })
